@@ -165,6 +165,15 @@ CLAIMED.update({
             "File kinds are abstract (first offending row 0 / 2 / 3, missing, directory); --until in {absent, -1, 0, 2, 9}; when an "
             "unreadable and a rejected file meet, 3 is expected in either order.",
             "DESIGN.md section 5, C18"),
+    "C19": ("TLA+ spec Sql.tla (sql_ansi_type + the four dialect ladders over symbolic numbers +-(2^k + d); column mapping for "
+            "the other field types): TLC exhaustive over 4 dialects x all ordered pairs of 75 limits around every type boundary x "
+            "empty flag, and field lists; every behaviour's CID is built and create_table_statement() parsed back",
+            "TLC checks ColumnHoldsBothLimits and OneColumnPerFieldInOrder; replay judges every parsed column with real integers "
+            "against the dialect's capacity table, and compares quoting, NOT NULL, decimal digits, varchar length and column order. "
+            "The D11 counterexample (Transact-SQL tinyint for negative ranges) is kept and recorded as known finding.",
+            "Symbolic limits k in {7, 8, 15, 16, 31, 32, 63}, d in -2..2, plus small numbers; ANSI / Oracle int never judged too "
+            "small; 8 tabulated names for keyword quoting; only bounded Integer ranges.",
+            "DESIGN.md section 5, C19"),
 })
 
 NOT_BUILT = "check not built yet in this round (planned: see DESIGN.md section 5)"
